@@ -183,7 +183,12 @@ func checkC05(p *Program, r *Report) {
 				stored[k] = true
 			}
 		}
-		// fields written by any method reachable from the read/build API are state too
+		// fields that any function of the package stores a computed value into are state too (a bound
+		// recorded by NewSlimTrie describes the keys it was built from, not the instance); a field that is
+		// only ever given a parameter (the encoder) is configuration
+		for k := range computedStateFields(p, stN) {
+			stored[k] = true
+		}
 		var fields, config []string
 		for i := 0; i < st.NumFields(); i++ {
 			n := st.Field(i).Name()
@@ -484,4 +489,33 @@ func init() {
 	checks["C05"] = checkC05
 	controlFns["C05"] = controlC05
 	controlFns["C19"] = controlC05
+}
+
+// computedStateFields: fields of SlimTrie into which some function of the package stores a computed value
+// (anything but a parameter or nil): they describe the data the instance holds, not its configuration.
+func computedStateFields(p *Program, stN *types.Named) map[string]bool {
+	out := map[string]bool{}
+	for _, f := range p.FuncsOf(triePath) {
+		if f.Synthetic != "" {
+			continue
+		}
+		instrsOf(f, func(_ *ssa.BasicBlock, in ssa.Instruction) {
+			sto, ok := in.(*ssa.Store)
+			if !ok {
+				return
+			}
+			_, fv, fa := fieldOfAddr(sto.Addr)
+			if fa == nil || namedOf(fa.X.Type()) != stN {
+				return
+			}
+			if _, isPrm := stripConv(sto.Val).(*ssa.Parameter); isPrm {
+				return
+			}
+			if c, isK := sto.Val.(*ssa.Const); isK && c.IsNil() {
+				return
+			}
+			out[fv.Name()] = true
+		})
+	}
+	return out
 }
